@@ -11,13 +11,14 @@ from symex.core import SInt, all_, and_, any_, implies, ite, not_, or_
 from symex.harness import Case, Twin
 
 PROPERTY = "C20"
-FUNCTIONS = ["ibldsp.spiketrains._spikes_venn", "spikes_venn2", "spikes_venn3", "iblutil.numerical.bincount2D (executed symbolically)", "ibldsp.voltage.stack", "ibldsp.smooth.rolling_window"]
+FUNCTIONS = ["ibldsp.smooth.non_uniform_savgol", "ibldsp.spiketrains._spikes_venn", "spikes_venn2", "spikes_venn3", "iblutil.numerical.bincount2D (executed symbolically)", "ibldsp.voltage.stack", "ibldsp.smooth.rolling_window"]
 ASSUMPTIONS = [
     "Venn counting: 2-3 sorters with up to 2 spikes each, sorted sample times and channels symbolic on a tiny grid (samples_binsize=2, chunk_size 4 or 6, channels_binsize=2, 4 channels); tqdm/print are side effects",
     "stack: labels symbolic in {0,1,2} on up to 4 traces (np.unique forks), one sample per trace, aggregation by sum / mean",
+    "non_uniform_savgol: three fixed abscissa patterns (uniform, irregular, clustered), polynomial coefficients symbolic: the output is a linear term in them and each error coefficient must vanish up to 1e-4 relative (the matrix inverse is the real NumPy one on concrete numbers)",
     "rolling_window: concrete length n <= 9 with symbolic values, window lengths 3..8 (odd and even), all five window kinds; window weights are the doubles NumPy computes (a constant is returned within 1e-12 relative)",
 ]
-OUTSIDE = ["cadzow / svd_denoise_npx (LAPACK SVD)", "smooth.lp (FFT)", "non_uniform_savgol / smooth_interpolate_savgol (inverse of a symbolic Vandermonde matrix: non-linear real arithmetic, not attempted)", "stack with a header (pandas groupby)"]
+OUTSIDE = ["cadzow / svd_denoise_npx (LAPACK SVD)", "smooth.lp (FFT)", "non_uniform_savgol on SYMBOLIC abscissae (inverse of a symbolic Vandermonde matrix) and smooth_interpolate_savgol's NaN gap filling (scipy interp1d)", "stack with a header (pandas groupby)"]
 EXPLANATION = "spike times/channels fork through searchsorted and the per-bin masks; counts are ITE sums."
 LEVEL_TEXT = ("For all spike times and channels on the grid z3 decides that every spike of every sorter is attributed to exactly one Venn region (per-sorter region sums equal the sorter's spike count) and that the result does not depend on the chunk size; "
               "stacking returns one row per distinct label in ascending order holding the aggregate of exactly that label's traces with the right fold; the rolling window keeps the input length and returns constants unchanged.")
@@ -38,6 +39,7 @@ def setup():
     arrays.patch_module(st)
     arrays.patch_module(v)
     arrays.patch_module(sm)
+    del sm.int, sm.float          # smooth.py tests `type(window) is not int`: keep the builtin names there
     arrays.patch_module(num)
     st.tqdm = stubs.Namespace(None, tqdm=lambda x, **k: x)
     st.print = lambda *a, **k: None
@@ -118,9 +120,48 @@ def case_rolling(ctx, n, wl, window):
             ctx.oblige("constant_input_returns_the_constant", and_(outc[i] - c <= c * 1e-12, c - outc[i] <= c * 1e-12), detail={"i": i, "value": outc[i]})
 
 
+SAVGOL_X = {
+    "uniform": [0, 1, 2, 3, 4, 5, 6, 7, 8, 9],
+    "irregular": [0.0, 0.4, 1.5, 1.9, 3.0, 4.2, 4.5, 6.1, 7.0, 8.8, 9.1],
+    "clustered": [0.0, 0.1, 0.2, 2.0, 2.1, 5.0, 5.5, 5.6, 9.0, 9.5],
+}
+
+
+def case_savgol(ctx, pattern, window, order):
+    """the non-uniform Savitzky-Golay filter reproduces every polynomial of degree <= order (symbolic coefficients) on fixed irregular abscissae"""
+    import ibldsp.smooth as sm
+    x = np.array(SAVGOL_X[pattern], dtype=float)
+    cs_ = [ctx.real(f"c{k}", -10, 10) for k in range(order + 1)]
+    ys = []
+    for xi in x:
+        acc = 0
+        for k, c in enumerate(cs_):
+            acc = acc + c * float(xi ** k)
+        ys.append(acc)
+    out = ctx.call("non_uniform_savgol", sm.non_uniform_savgol, x, arrays.mk(ys, tag=np.dtype(float)), window, order)
+    if not ctx.oblige("savgol_keeps_the_input_length", tuple(out.shape) == (len(x),), detail={"shape": str(out.shape)}):
+        return
+    for i in range(len(x)):
+        d = out[i] - ys[i]
+        # d is linear in the symbolic coefficients: every coefficient of the error must vanish up to float rounding
+        if not isinstance(d, core.Sym):
+            ctx.oblige("savgol_reproduces_polynomials_up_to_its_order", abs(float(d)) <= 1e-6, detail={"i": i})
+            continue
+        errs = []
+        for k in range(order + 1):
+            sub = [(c.t, z3.RealVal(1 if kk == k else 0)) for kk, c in enumerate(cs_)]
+            v = z3.simplify(z3.substitute(d.t, *sub))
+            errs.append(abs(float(v.numerator_as_long()) / float(v.denominator_as_long())) if z3.is_rational_value(v) else None)
+        scale = [max(1.0, float(abs(x[i]) ** k)) for k in range(order + 1)]
+        ctx.oblige("savgol_reproduces_polynomials_up_to_its_order", all(e is not None and e <= 1e-6 * sc * 100 for e, sc in zip(errs, scale)), detail={"i": i, "errors": errs})
+
+
 def cases(tier):
     b = bounds(tier)
     cs = []
+    for pat in SAVGOL_X:
+        for (w, o) in ((5, 2), (7, 3)) if tier == "quick" else ((5, 1), (5, 2), (5, 3), (7, 2), (7, 3), (9, 3)):
+            cs.append(Case(f"savgol_{pat}_w{w}_o{o}", "case_savgol", {"pattern": pat, "window": w, "order": o}))
     if tier == "quick":
         cs.append(Case("venn2_chunk4_vs4", "case_venn", {"nsorters": 2, "nsp": [2, 1], "chunk_a": 4, "chunk_b": 4}, timeout_s=3300, max_paths=500000))
         cs.append(Case("venn2_chunk6_vs4", "case_venn", {"nsorters": 2, "nsp": [1, 1], "chunk_a": 6, "chunk_b": 4}, timeout_s=3300, max_paths=500000))
@@ -146,6 +187,8 @@ def twins(tier):
         Twin("venn_one_chunk_short", "ibldsp.spiketrains", "num_chunks = int((max_samples // chunk_size) + 1)", "num_chunks = int(max_samples // chunk_size) or 1", vn),
         Twin("venn_chunk_edge", "ibldsp.spiketrains", "*np.searchsorted(samples, [sample_offset, sample_offset + chunk_size])", "*np.searchsorted(samples, [sample_offset + 1, sample_offset + chunk_size])", vn),
         Twin("stack_wrong_vector", "ibldsp.voltage", "        i2stack = sind == uinds", "        i2stack = sind == word", ["stack_sum", "stack_mean"]),
+        Twin("savgol_border_origin", "ibldsp.smooth", "            x_i *= x[i] - x[half_window]\n", "            x_i *= x[i] - x[half_window - 1]\n", ["savgol_irregular_w5_o2", "savgol_clustered_w5_o2"]),
+        Twin("savgol_window_offset", "ibldsp.smooth", "                t[j] = x[i + j - half_window] - x[i]", "                t[j] = x[i + j - half_window] - x[i - 1]", ["savgol_irregular_w5_o2"]),
         Twin("rolling_sign", "ibldsp.smooth", "return y[round((window_len / 2 - 1)): round(-(window_len / 2))]", "return y[round((window_len / 2 - 1)): round(-(window_len / 2)) - 1]", ["rolling_flat_3", "rolling_hanning_5"]),
         Twin("rolling_not_normalised", "ibldsp.smooth", 'y = np.convolve(w / w.sum(), s, mode="valid")', 'y = np.convolve(w / w.max(), s, mode="valid")', ["rolling_hanning_5", "rolling_blackman_5"]),
     ]
@@ -188,6 +231,19 @@ g = np.unique(lab)
 exp = np.array([[d[lab == k].sum() if agg == 'sum' else d[lab == k].mean()] for k in g]); ef = np.array([np.sum(lab == k) for k in g])
 print(stk, fold, exp, ef)
 if stk.shape != exp.shape or not np.allclose(stk, exp) or not np.array_equal(fold, ef): reproduced('stack differs from the per-label aggregate')
+not_reproduced()
+"""
+    if case.startswith("savgol"):
+        return f"""
+import ibldsp.smooth as sm
+x = np.array({SAVGOL_X[params['pattern']]}, dtype=float); w, o = {params['window']}, {params['order']}
+bad = []
+for k in range(o + 1):
+    y = x ** k
+    out = sm.non_uniform_savgol(x, y, w, o)
+    if out.shape != y.shape or not np.allclose(out, y, rtol=1e-6, atol=1e-6): bad.append((k, float(np.max(np.abs(out - y)))))
+print(bad)
+if bad: reproduced(f'non_uniform_savgol(window={{w}}, order={{o}}) does not reproduce x^k on pattern {params['pattern']}: {{bad}}')
 not_reproduced()
 """
     if case.startswith("rolling"):
